@@ -48,7 +48,7 @@ register("C19",
 register("C18",
          "Machine-checked Coq theorems over histories of ANY length and any truncation function: a full refresh after any history yields the materialisation of the current base; merge equals the full rollup whenever all changes since the previous refresh fall inside the window and is idempotent; "
          "an incremental re-run without new data leaves the table literally unchanged and in-order arrival gives the full rollup; C18_history lifts these to whole histories by induction (ghost state = base at the last refresh). "
-         "The CLI's incremental/merge modes are refuted by witnesses (known finding). Tied to the code by executing random histories through PreAggregation.refresh and the real CLI and comparing the rollup bag after every step with the model evaluated in Coq, "
+         "The command line's incremental / merge modes are proved to be the API's modes (C18_cli_incremental_is_api, C18_cli_merge_is_api; cli.py repaired in 280cea5). Tied to the code by executing random histories through PreAggregation.refresh and the real CLI and comparing the rollup bag after every step with the model evaluated in Coq, "
          "plus an SQL-level oracle independent of the model. The SQL statement programs of the three refresh strategies (per scenario) and the mode dispatch are REGENERATED from pre_aggregation.py on every run; "
          "C18_prog_refines / C18_progs_history prove that, interpreted statement by statement, they never fail and compute exactly the model's step for every state, operation and history.",
          "Trusted: Coq kernel; translator/gen_refresh.py (fail-closed definitional interpreter, validated against CPython each run) and the statement semantics Model/RefreshProg.exec; Model/Refresh.v is hand-written (modelled-not-verified, one dimension + sum + count standing for any decomposable rollup) and tied by differential testing; DuckDB and typer CliRunner as drivers; the API source statement (bucket-level watermark predicate) is the harness's choice. No axioms.",
